@@ -92,8 +92,8 @@ constexpr auto erf_check(T const x) noexcept -> T
             is_posinf(x) ? T(1)
         : is_neginf(x)   ? -T(1)
                          :
-                       // indistinguishable from zero
-            etl::numeric_limits<T>::epsilon() > abs(x) ? T(0)
+                       // erf(x) = 2/sqrt(pi) (x - x^3/3 + ...): indistinguishable from the first term
+            etl::numeric_limits<T>::epsilon() > abs(x) ? x * (T(2) / T(GCEM_SQRT_PI))
                                                        :
                                                        // else
             x < T(0) ? -erf_begin(-x)
